@@ -4,6 +4,7 @@ import OVM.Refine.CacheClosed
 import OVM.Refine.CacheSet
 import OVM.Refine.CacheImmediate
 import OVM.Refine.CacheAssembly
+import OVM.Refine.LogicalRead
 /-
   C04 — garbage collection preserves the logical mesh and remaps tracked handles.
   Proved here for every state:
@@ -327,5 +328,112 @@ theorem history_keeps_cache_invariant_partial (k : Kernel) (ops : List Op) (hw :
     (hr : HistoryOK k ops) : WF (k.run ops) ∧ (k.run ops).oneCell = true ∧ CacheInv (k.run ops) :=
   have h := sinv_run_partial k ops ⟨hw, h1⟩ hr
   ⟨h.wf, h.one, h.wf.cache⟩
+
+end OVM.Props.C04
+
+/-! ======================= appended by builder L1 (logical mesh, C04) ======================= -/
+namespace OVM.Props.C04
+open OVM OVM.Kernel OVM.Kernel.Logical
+
+/-! ------------------------------------------------------------------------------------------
+    The property itself, kernel part (builder L1; OVM/Refine/Logical*.lean, LogicalGC.lean).
+    `LogIso k k' ρ` = equal logical meshes up to the renumbering `ρ` (`LogMinus` with nothing removed): `ρ` is a bijection
+    between the live slots of every kind, every live definition of `k` is found in `k'` at the new handle with every
+    handle renamed, and every property column of every kind holds at the new handle what it held at the old one.
+    ------------------------------------------------------------------------------------------ -/
+
+/-- **`collect_garbage` and leaving deferred mode keep the logical mesh and leave nothing pending** — both deletion
+    styles (index shifting / swap-with-last), every bottom-up configuration, every state satisfying the reachability
+    invariant `GInv` (C01: `reach_inv`; any set of pending deletions a history can produce).  The result satisfies the
+    invariant again, has the same logical mesh (entities, definitions, all property values: `LogIso`, elementary form
+    `Carried … Rem.none`), and when deferred mode was on, no flag and no pending counter is left; the same for
+    `enable_deferred_deletion(false)`. -/
+theorem garbage_collection_preserves_logical_mesh (k : Kernel) (hi : Global.GInv k) :
+    (∃ ρ, LogIso k k.collectGarbage ρ ∧ Carried k k.collectGarbage ρ Rem.none) ∧ Global.GInv k.collectGarbage ∧
+    (k.deferred = true → NoFlag k.collectGarbage.cDel ∧ NoFlag k.collectGarbage.fDel ∧ NoFlag k.collectGarbage.eDel ∧
+      NoFlag k.collectGarbage.vDel ∧ k.collectGarbage.needsGC = false) ∧
+    (∃ ρ, LogIso k (k.enableDeferred false) ρ) ∧ (k.enableDeferred false).deferred = false := by
+  obtain ⟨ρ, s⟩ := collectGarbage_log hi
+  refine ⟨⟨ρ, s, carried_of_logMinus s⟩, Global.ginv_collectGarbage hi, ?_, ?_, enableDeferred_false_flag k⟩
+  · intro hd
+    have hn := (collectGarbage_modes k).2.2.2.2.2 hd
+    by_cases hg : k.needsGC = true
+    · obtain ⟨_, _, n1, n2, n3, n4⟩ := Global.gc_noFlag hi hd hg
+      exact ⟨n1, n2, n3, n4, hn⟩
+    · rw [Global.collectGarbage_id (fun h => hg h.2)] at hn ⊢
+      obtain ⟨n1, n2, n3, n4⟩ := hi.noFlag_of_noGC (by simpa using hg)
+      exact ⟨n1, n2, n3, n4, hn⟩
+  · rw [enableDeferred_false]
+    by_cases hd : k.deferred = true
+    · simp only [hd, if_true]
+      generalize k.collectGarbage = g at s
+      exact ⟨ρ, s.congr_right rfl rfl rfl rfl rfl rfl rfl rfl rfl⟩
+    · simp only [hd, Bool.false_eq_true, if_false]
+      exact ⟨Ren.id, (LogIso.refl k).congr_right rfl rfl rfl rfl rfl rfl rfl rfl rfl⟩
+
+/-- **Deferred deletion followed by `collect_garbage` equals the same deletion performed immediately, up to
+    renumbering**: from a deferred-mode state with nothing pending, for each of `delete_cell/face/edge/vertex` and every
+    in-range handle, the mesh after "delete, then collect" and the mesh after switching deferred deletion off and
+    deleting have the same logical mesh (`LogIso`: entities, definitions, all property values), in both deletion styles
+    (both sides use the `fast` setting of `k`) and every bottom-up configuration.
+    `_partial`: ONE deletion.  For a list of deletions the two runs use different handles from the second call on (the
+    immediate run renumbers after every call), so the statement needs the arguments of the immediate run translated
+    through the renumbering so far; the ingredients are here (`LogMinus.comp`, `LogMinus.iso_of_same`,
+    `deletion_removes_exactly_the_closure` on every intermediate state) but the induction is not carried out. -/
+theorem deferred_then_gc_equals_immediate_partial (k : Kernel) (hi : Global.GInv k) (hd : k.deferred = true)
+    (hn : k.needsGC = false) :
+    (∀ c, c < k.nC → ∃ ρ, LogIso (k.deleteCell c).collectGarbage (({ k with deferred := false } : Kernel).deleteCell c) ρ) ∧
+    (∀ f, f < k.nF → ∃ ρ, LogIso (k.deleteFace f).collectGarbage (({ k with deferred := false } : Kernel).deleteFace f) ρ) ∧
+    (∀ e, e < k.nE → ∃ ρ, LogIso (k.deleteEdge e).collectGarbage (({ k with deferred := false } : Kernel).deleteEdge e) ρ) ∧
+    (∀ v, v < k.nV → ∃ ρ, LogIso (k.deleteVertex v).collectGarbage (({ k with deferred := false } : Kernel).deleteVertex v) ρ) :=
+  deferred_gc_eq_immediate hi hd hn
+
+/-- **the quantifier of the property**: after every history of valid calls from the empty mesh (any set of pending
+    deferred deletions such a history can leave, `fast` on or off, any bottom-up configuration), `collect_garbage` keeps
+    the logical mesh and leaves nothing pending -/
+theorem garbage_collection_on_reachable_states (ops : List Op) (h : Global.HistoryOK {} ops) :
+    (∃ ρ, LogIso (({} : Kernel).run ops) (({} : Kernel).run ops).collectGarbage ρ) ∧
+    ((({} : Kernel).run ops).deferred = true → (({} : Kernel).run ops).collectGarbage.needsGC = false ∧
+      NoFlag (({} : Kernel).run ops).collectGarbage.cDel ∧ NoFlag (({} : Kernel).run ops).collectGarbage.fDel ∧
+      NoFlag (({} : Kernel).run ops).collectGarbage.eDel ∧ NoFlag (({} : Kernel).run ops).collectGarbage.vDel) := by
+  obtain ⟨⟨ρ, s, _⟩, _, n, _⟩ := garbage_collection_preserves_logical_mesh _ (Global.ginv_reachable ops h)
+  exact ⟨⟨ρ, s⟩, fun hd => ⟨(n hd).2.2.2.2, (n hd).1, (n hd).2.1, (n hd).2.2.1, (n hd).2.2.2.1⟩⟩
+
+/-! non-vacuity -/
+
+set_option maxRecDepth 8000 in
+/-- a state with pending deletions that satisfies the hypotheses (the tetrahedron after a deferred `delete_vertex(0)`:
+    eight entities flagged), swap-with-last style; `collect_garbage` leaves one triangle, nothing pending (TEST by
+    evaluation next to the theorem's conclusion) -/
+example : Global.GInv (tetK.deleteVertex 0) ∧ (tetK.deleteVertex 0).deferred = true ∧ (tetK.deleteVertex 0).needsGC = true ∧
+    (tetK.deleteVertex 0).fast = true ∧
+    (∃ ρ, LogIso (tetK.deleteVertex 0) (tetK.deleteVertex 0).collectGarbage ρ) ∧
+    (tetK.deleteVertex 0).collectGarbage.edges = [(0, 2), (1, 2), (0, 1)] ∧
+    (tetK.deleteVertex 0).collectGarbage.faces = [[5, 0, 3]] ∧ (tetK.deleteVertex 0).collectGarbage.nV = 3 ∧
+    (tetK.deleteVertex 0).collectGarbage.needsGC = false := by
+  have g := Global.ginv_deleteVertex (v := 0) (by decide) ginv_tetK
+  obtain ⟨⟨ρ, s, _⟩, _, _⟩ := garbage_collection_preserves_logical_mesh _ g
+  exact ⟨g, by decide, by decide, by decide, ⟨ρ, s⟩, by decide, by decide, by decide, by decide⟩
+
+set_option maxRecDepth 8000 in
+/-- the same in index-shifting style (`tetS`), where the survivors keep their order -/
+example : Global.GInv (tetS.deleteVertex 0) ∧ (tetS.deleteVertex 0).fast = false ∧ (tetS.deleteVertex 0).needsGC = true ∧
+    (∃ ρ, LogIso (tetS.deleteVertex 0) (tetS.deleteVertex 0).collectGarbage ρ) ∧
+    (tetS.deleteVertex 0).collectGarbage.edges = [(0, 1), (2, 0), (2, 1)] ∧
+    (tetS.deleteVertex 0).collectGarbage.faces = [[3, 4, 1]] := by
+  have g0 : Global.GInv tetS := Global.ginv_of_noFlag wf_tetS (by decide) (by unfold NoFlag; decide)
+    (by unfold NoFlag; decide) (by unfold NoFlag; decide) (by unfold NoFlag; decide)
+  have g := Global.ginv_deleteVertex (v := 0) (by decide) g0
+  obtain ⟨⟨ρ, s, _⟩, _, _⟩ := garbage_collection_preserves_logical_mesh _ g
+  exact ⟨g, by decide, by decide, ⟨ρ, s⟩, by decide, by decide⟩
+
+set_option maxRecDepth 8000 in
+/-- deferred + collect = immediate on the tetrahedron (hypotheses hold; both sides by evaluation: one triangle) -/
+example : Global.GInv tetK ∧ tetK.deferred = true ∧ tetK.needsGC = false ∧ (0 : Nat) < tetK.nV ∧
+    (∃ ρ, LogIso (tetK.deleteVertex 0).collectGarbage (({ tetK with deferred := false } : Kernel).deleteVertex 0) ρ) ∧
+    (tetK.deleteVertex 0).collectGarbage.faces = [[5, 0, 3]] ∧
+    (({ tetK with deferred := false } : Kernel).deleteVertex 0).faces = [[5, 0, 3]] :=
+  ⟨ginv_tetK, rfl, by decide, by decide,
+   (deferred_then_gc_equals_immediate_partial tetK ginv_tetK rfl (by decide)).2.2.2 0 (by decide), by decide, by decide⟩
 
 end OVM.Props.C04
